@@ -33,7 +33,7 @@ import vlib
 
 PROP = "C20"
 CELL = F(1, 120)
-TOL_ULPS = 4                   # accepted deviation of a block edge, in ulps of the shifted edge value (90 - lat, lon + 180)
+TOL_ULPS = 2                   # accepted deviation of a block edge, in ulps of the shifted edge value (90 - lat, lon + 180)
 CENTRE_TOL = F(1, 10 ** 6)     # in cells: returned float centres vs exact lattice centres
 DL = 50.0 / 6000               # the harness' own copy of the cell size in doubles
 SIG_DEGENERATE = "srtm-rect-below-double-resolution"
@@ -202,7 +202,7 @@ def edge_tol(x, is_lat):
     """Interpretation of the property for doubles: the code computes `90 - lat` / `lon + 180`
     (one rounding, <= 1/2 ulp of that shifted value) and divides by `_dlat` (one more rounding of
     the index).  A block edge may therefore deviate from the exact one by at most TOL_ULPS ulps of
-    the shifted value (<= 4 * 5.7e-14 deg = 2.7e-11 cell).  Returned in degrees (exact)."""
+    the shifted value (<= 2 * 5.7e-14 deg = 1.4e-11 cell).  Returned in degrees (exact)."""
     shift = (90.0 - float(x)) if is_lat else (float(x) + 180.0)
     return TOL_ULPS * F(math.ulp(max(abs(shift), 1e-300)))
 
@@ -352,7 +352,7 @@ def oracle_elev(ck, rect, lats, lons, E, case):
         dev = float(-slack / (tol / TOL_ULPS))
         ck.extra_cov["max_accepted_edge_deviation_ulps"] = max(ck.extra_cov.get("max_accepted_edge_deviation_ulps", 0.0), round(dev, 3))
     if snap:
-        ck.count("oracle/edge-accepted-within-4ulp-of-shifted-value")
+        ck.count("oracle/edge-accepted-within-2ulp-of-shifted-value")
     E = np.asarray(E)
     if E.shape != (len(R), len(C)):
         bad(f"elevation shape {E.shape} != ({len(R)}, {len(C)})")
@@ -420,8 +420,11 @@ def check_elev(ck, env, rect, kind, out_lines=None, use_model=True):
     if not use_model:
         return None
     cands = rect_candidates(rect)
-    lines = ["elev " + " ".join(fs(x) for x in q) for q in cands]
-    return dict(case=case, lines=lines, R=R, C=C, need=need, reads=reads, E=res["E"], ncand=len(cands))
+    names = [t[0] for t in OWN]
+    cache_ids = ",".join(str(names.index(n)) for n in res["before"])
+    lines = ["elev " + " ".join(fs(x) for x in q) + (" " + cache_ids if cache_ids else "") for q in cands]
+    return dict(case=case, lines=lines, R=R, C=C, need=need, reads=reads, E=res["E"], ncand=len(cands),
+                downloads=list(res["downloads"]), before=list(res["before"]), touching=touching)
 
 
 def compare_elev(ck, pend, outs):
@@ -431,7 +434,7 @@ def compare_elev(ck, pend, outs):
         if not o.startswith("ok|"):
             why.append(f"model: {o[:40]}")
             continue
-        _, slat, slon, stl, sE = o.split("|")
+        _, slat, slon, stl, sE, sdl = o.split("|")
         mlat = [F(x) for x in slat.split()]
         mlon = [F(x) for x in slon.split()]
         mR = [(90 - q) * 120 - F(1, 2) for q in mlat]
@@ -446,6 +449,13 @@ def compare_elev(ck, pend, outs):
             continue
         if [n for n in pend["reads"] if n in mt] != mt:
             ck.count("elev/tile-order-differs-from-model(diagnostic)")
+        # downloads of this call (model: elevationC on the same cache): as sets; the code may in
+        # addition fetch tiles that only touch the block (float rounding of the block bounds)
+        mdl = set(sdl.split()) if sdl != "-" else set()
+        cdl = set(pend["downloads"])
+        if not mdl <= cdl or not (cdl - mdl) <= (set(pend["touching"]) - set(pend["need"]) - set(pend["before"])):
+            why.append(f"model downloads {sorted(mdl)} vs code {sorted(cdl)} on cache {pend['before']}")
+            continue
         mE = np.array([int(x) for x in sE.split()], dtype=np.int64).reshape(len(mR), len(mC))
         if not np.array_equal(mE, np.asarray(pend["E"]).astype(np.int64)):
             why.append("model elevation array differs from the code's")
